@@ -276,7 +276,10 @@ def _shape_calls(f, arg):
         ax = None if arg == "none" else 1
         return sh, {"mg": lambda x: mg.squeeze(x, axis=ax), "np": lambda x: np.squeeze(x, axis=ax), "method": lambda x: x.squeeze(axis=ax)}
     if f == "ravel":
-        return (2, 3), {"mg": lambda x: mg.ravel(x), "np": lambda x: np.ravel(x), "method": lambda x: x.ravel()}
+        pre = (lambda x: x.T) if arg == "ofT" else (lambda x: x)
+        return (2, 3), {"mg": lambda x: mg.ravel(pre(x)), "np": lambda x: np.ravel(pre(x)), "method": lambda x: pre(x).ravel(),
+                        "flatten": lambda x: pre(x).flatten(), "reshape_m1": lambda x: pre(x).reshape(-1),
+                        "np_reshape_m1": lambda x: np.reshape(pre(x), -1)}
     if f == "clip":
         lo, hi = {"both": (-0.5, 1.0), "lo": (-0.5, None), "hi": (None, 1.0)}[arg]
         return (2, 3), {"mg": lambda x: mg.clip(x, lo, hi), "np": lambda x: np.clip(x, lo, hi), "method": lambda x: x.clip(lo, hi)}
